@@ -133,6 +133,7 @@ def run_case(ctx, case):
     got = np.asarray(gu.points_inside_polygon(pts.copy(), poly.copy()))
     d = dist_to_edges(poly, pts)
     judged = d > 1e-6 * size
+    ctx.evaluated(int(judged.sum()))
     ctx.extra["points-near-edge-not-judged"] += int((~judged).sum())
     bad = None
     vys = set(poly[:, 1].tolist())
